@@ -419,6 +419,10 @@ class RTCRtpReceiver:
             await self.__rtcp_started.wait()
             self.__rtcp_task.cancel()
             await self.__rtcp_exited.wait()
+        elif self._track is not None:
+            # receive() was never called, so there is no decoder thread to
+            # signal the end of the track to whoever is consuming it.
+            self._track._queue.put_nowait(None)
 
     def _handle_disconnect(self) -> None:
         self.__stop_decoder()
